@@ -6,47 +6,49 @@ Import ListNotations.
 Open Scope Qc_scope.
 
 (* ------------------------------------------------------------------------------------------------------------
-   The full statement: for EVERY history function, state layout, parameter values, model (any number of equations,
-   terms and delayed factors), solver kind, time and state, the compiled function evaluates every delayed term as
-   component pos(x) of hist(t - tau), t in time units.  It is FALSE of the code as it is (see the C10_refuted theorems). *)
-Definition C10_full_statement : Prop :=
-  forall (hist : Qc -> list Qc) (pos : nat -> nat) (par : nat -> Qc) m md t y,
-    impl_eval hist pos par m md t y = Some (spec_eval hist pos par m md t y).
+   The full statement, no guard: for EVERY history function, state layout, parameter values, model (any number of
+   equations, terms and delayed factors), solver kind, time and state, the compiled function evaluates every delayed term as
+   component pos(x) of hist(t - tau), t in time units (t for adaptive solvers, t*dt for fixed-step ones).
+   True of the code since the repairs D38 (textual replace in _expr_to_str) and D39 (step size written exactly). *)
+Theorem C10_full : forall (hist : Qc -> list Qc) (pos : nat -> nat) (par : nat -> Qc) m md t y,
+  impl_eval hist pos par m md t y = spec_eval hist pos par m md t y.
+Proof. exact dde_full. Qed.
+Print Assumptions C10_full.
 
-(* Partial theorem under two decidable guards (findings C10-F1 and C10-F2). *)
-Theorem C10_partial : forall (hist : Qc -> list Qc) (pos : nat -> nat) (par : nat -> Qc) m md t y,
+(* Documentation of the behaviour before the repairs: it met the specification only inside two guards ... *)
+Theorem C10_before_fix_partial : forall (hist : Qc -> list Qc) (pos : nat -> nat) (par : nat -> Qc) m md t y,
   past_terms_printable m = true -> dt_fmt_exact md = true ->
-  impl_eval hist pos par m md t y = Some (spec_eval hist pos par m md t y).
-Proof. exact dde_refines. Qed.
-Print Assumptions C10_partial.
+  impl_eval_before_fix hist pos par m md t y = Some (spec_eval_e hist pos par m md t y).
+Proof. exact before_fix_refines. Qed.
+Print Assumptions C10_before_fix_partial.
 
-(* F1, silent form:  z' = a + k0 - past(z, 1/2)  — the model says "not delivered"; the real code reads a(t-k0) *)
-Theorem C10_refuted_printable : ~ C10_full_statement.
+(* ... D38:  z' = a + k0 - past(z, 1/2)  was not delivered (the real code read a(t-k0)) *)
+Theorem C10_before_fix_refuted_printable : exists (hist : Qc -> list Qc) pos par m md t y,
+  impl_eval_before_fix hist pos par m md t y <> Some (spec_eval_e hist pos par m md t y).
 Proof.
-  intros H.
-  specialize (H (fun _ => [0; 0; 0]) (fun x => x) (fun _ => 0)
-                [[(-(1), [FPar 0; FVar 0])]; [(1, [FVar 0]); (1, [FPar 0]); (-(1), [FPast 1 (DLit (mkq 1 2))])]; [(1, [FVar 1])]]
-                Adaptive 0 [0; 0; 0]).
-  vm_compute in H. discriminate H.
+  exists (fun _ => [0; 0; 0]), (fun x => x), (fun _ => 0),
+         [[(-(1), [FPar 0; FVar 0])]; [(1, [FVar 0]); (1, [FPar 0]); (-(1), [FPast 1 (DLit (mkq 1 2))])]; [(1, [FVar 1])]],
+         EAdaptive, 0, [0; 0; 0].
+  vm_compute. intros H. discriminate H.
 Qed.
-Print Assumptions C10_refuted_printable.
+Print Assumptions C10_before_fix_refuted_printable.
 
-(* F2: a step size that does not survive '{dt:.10e}' (dt = 1/2 + 2^-40 is written as 5.0000000000e-01) *)
-Theorem C10_refuted_dt_format : exists (hist : Qc -> list Qc) pos par m md t y,
-  past_terms_printable m = true /\ impl_eval hist pos par m md t y <> Some (spec_eval hist pos par m md t y).
+(* ... D39: a step size that did not survive '{dt:.10e}' (dt = 1/2 + 2^-40 was written as 5.0000000000e-01) *)
+Theorem C10_before_fix_refuted_dt_format : exists (hist : Qc -> list Qc) pos par m md t y,
+  past_terms_printable m = true /\ impl_eval_before_fix hist pos par m md t y <> Some (spec_eval_e hist pos par m md t y).
 Proof.
   exists (polyhist [[mkq 10 1; mkq 1 1]; [mkq 20 1; mkq 2 1]]), (fun x => x), (fun _ => 0),
          [[(-(1), [FVar 0]); (1, [FPast 1 (DLit (mkq 1 4))])]; [(1, [FVar 0])]],
-         (Fixed (mkq 549755813889 1099511627776) (mkq 1 2)), (mkq 8 1), [mkq 1 1; mkq 2 1].
+         (EFixed (mkq 549755813889 1099511627776) (mkq 1 2)), (mkq 8 1), [mkq 1 1; mkq 2 1].
   split; [vm_compute; reflexivity|]. intros H. apply orow_eqb_some in H. vm_compute in H. discriminate H.
 Qed.
-Print Assumptions C10_refuted_dt_format.
+Print Assumptions C10_before_fix_refuted_dt_format.
 
 (* every single occurrence: the history variable that replaces past(x, d) is bound to nth (pos x) (hist (t_time - d)) *)
 Theorem C10_past_occurrence : forall (hist : Qc -> list Qc) pos par m tb cm x d,
   compile m = (tb, cm) -> In (x, d) (past_keys m) ->
   exists k, slot tb x k = Some d /\
-    forall md t, hist_val hist pos par tb md t x k = nth (pos x) (hist (t_emit md t - dval par d)) 0.
+    forall (md : emode) t, hist_val hist pos par tb md t x k = nth (pos x) (hist (t_emit md t - dval par d)) 0.
 Proof. exact past_occurrence. Qed.
 Print Assumptions C10_past_occurrence.
 
@@ -64,38 +66,36 @@ Print Assumptions C10_alloc_bijective.
 Definition C10_edges_full_statement : Prop :=
   forall step es base, add_edges (edge_factor_impl step es) es base = add_edges edge_factor_spec es base.
 
-Theorem C10_edges_partial : forall step es base,
-  edge_delay_not_one es = true -> edge_delay_above_step step es = true ->
+(* partial: one guard left (finding C10-F4) *)
+Theorem C10_edges_partial : forall step es base, edge_delay_above_step step es = true ->
   add_edges (edge_factor_impl step es) es base = add_edges edge_factor_spec es base.
 Proof. exact edges_refine. Qed.
 Print Assumptions C10_edges_partial.
 
-(* F3: delay exactly 1 is compiled without delay *)
-Theorem C10_refuted_edge_delay_one : exists step es base,
+(* F4: delays not above step_size are dropped *)
+Theorem C10_refuted_edge_delay_below_step : ~ C10_edges_full_statement.
+Proof.
+  intros H. specialize (H (mkq 1 8) [(1%nat, 2%nat, 0%nat, mkq 1 8)] [[]; []; []; []]).
+  vm_compute in H. discriminate H.
+Qed.
+Print Assumptions C10_refuted_edge_delay_below_step.
+
+(* before D40 a delay of exactly 1 was compiled without delay *)
+Theorem C10_before_fix_refuted_edge_delay_one : exists step es base,
   edge_delay_above_step step es = true /\
-  add_edges (edge_factor_impl step es) es base <> add_edges edge_factor_spec es base.
+  add_edges (edge_factor_before_fix step es) es base <> add_edges edge_factor_spec es base.
 Proof.
   exists (mkq 1 8), [(1%nat, 2%nat, 0%nat, mkq 1 1)], [[]; []; []; []].
   split; [vm_compute; reflexivity|]. vm_compute. intros H. discriminate H.
 Qed.
-Print Assumptions C10_refuted_edge_delay_one.
-
-(* F4: delays not above step_size are dropped *)
-Theorem C10_refuted_edge_delay_below_step : exists step es base,
-  edge_delay_not_one es = true /\
-  add_edges (edge_factor_impl step es) es base <> add_edges edge_factor_spec es base.
-Proof.
-  exists (mkq 1 8), [(1%nat, 2%nat, 0%nat, mkq 1 8)], [[]; []; []; []].
-  split; [vm_compute; reflexivity|]. vm_compute. intros H. discriminate H.
-Qed.
-Print Assumptions C10_refuted_edge_delay_below_step.
+Print Assumptions C10_before_fix_refuted_edge_delay_one.
 
 (* ------------------------------------------------------------------------------------------------------------
    run(solver='euler'): the loop  rhs = func(i, y, hist); y += dt*rhs; hist.update((i+1)*dt, y)  over the DDEHistory
    model (any initial capacity, any garbage in fresh buffer rows) IS the method-of-steps recurrence whose history is
    the piecewise-linear interpolant of the steps computed so far. *)
-Theorem C10_run_refines : forall pos par m dt junk, past_terms_printable m = true -> 0 < dt ->
-  forall cap n y0, run_impl pos par m dt dt junk cap n y0 = Some (run_spec pos par m dt n y0).
+Theorem C10_run_refines : forall pos par m dt junk, 0 < dt ->
+  forall cap n y0, run_impl pos par m dt junk cap n y0 = Some (run_spec pos par m dt n y0).
 Proof. exact run_refines. Qed.
 Print Assumptions C10_run_refines.
 
@@ -133,14 +133,13 @@ Print Assumptions C10_rewrite_example.
 
 (* non-vacuity: x' = -x + 2*z(t-1/2)*z(t-1/4) + v(t-d0), z' = x, v' = z with the delayed variables in slots 1 and 2,
    two delays on z, a parameter delay, fixed step 1/8 at step 8 (t = 1), hist = (10+t, 20+2t, 30+4t^2), d0 = 3/4:
-   guards hold and the function returns -1 + 2*21*(43/2) + (30+4/16) = 3729/4 *)
+   the function returns -1 + 2*21*(43/2) + (30+4/16) = 3729/4 *)
 Example C10_nonvacuous :
   let m := [[(-(1), [FVar 0]); (mkq 2 1, [FPast 1 (DLit (mkq 1 2)); FPast 1 (DLit (mkq 1 4))]); (1, [FPast 2 (DPar 0)])];
             [(1, [FVar 0])]; [(1, [FVar 1])]] in
   let hist := polyhist [[mkq 10 1; mkq 1 1]; [mkq 20 1; mkq 2 1]; [mkq 30 1; 0; mkq 4 1]] in
-  past_terms_printable m = true /\ dt_fmt_exact (Fixed (mkq 1 8) (mkq 1 8)) = true /\
   map fst (fst (compile m)) = [1%nat; 2%nat] /\
-  impl_eval hist (fun x => x) (fun _ => mkq 3 4) m (Fixed (mkq 1 8) (mkq 1 8)) (mkq 8 1) [mkq 1 1; mkq 2 1; mkq 3 1]
-    = Some [mkq 3729 4; mkq 1 1; mkq 2 1].
+  impl_eval hist (fun x => x) (fun _ => mkq 3 4) m (Fixed (mkq 1 8)) (mkq 8 1) [mkq 1 1; mkq 2 1; mkq 3 1]
+    = [mkq 3729 4; mkq 1 1; mkq 2 1].
 Proof. vm_compute. repeat split; reflexivity. Qed.
 Print Assumptions C10_nonvacuous.
